@@ -244,6 +244,39 @@ L_INT0b = R0.get_loader(int); L_M0b = R0.get_loader(M); D_M0b = R0.get_dumper(M)
 FRESH = Retort(recipe=[loader(int, f1, Chain.LAST)])
 L_INTF = FRESH.get_loader(int); L_MF = FRESH.get_loader(M); D_MF = FRESH.get_dumper(M)
 
+# recursive model requested through the same container as its recursive field, on a retort and on its clones
+@dataclasses.dataclass
+class RNode:
+    v: int
+    children: typing.List["RNode"] = dataclasses.field(default_factory=list)
+    nxt: typing.Optional["RNode"] = None
+def f100(x): return x * 100
+P0 = Retort(recipe=[loader(int, f1, Chain.LAST)])
+LP0 = P0.get_loader(typing.List[RNode]); LPO0 = P0.get_loader(typing.Optional[RNode])
+P1 = P0.extend(recipe=[loader(int, f100, Chain.LAST)])
+LP1 = P1.get_loader(typing.List[RNode]); LPO1 = P1.get_loader(typing.Optional[RNode])
+P2 = P0.replace(strict_coercion=False)
+LP2 = P2.get_loader(typing.List[RNode])
+LP0_AFTER = P0.get_loader(typing.List[RNode])
+F1 = Retort(recipe=[loader(int, f100, Chain.LAST), loader(int, f1, Chain.LAST)])
+LF1 = F1.get_loader(typing.List[RNode]); LFO1 = F1.get_loader(typing.Optional[RNode])
+F2 = Retort(recipe=[loader(int, f1, Chain.LAST)], strict_coercion=False)
+LF2 = F2.get_loader(typing.List[RNode])
+F0 = Retort(recipe=[loader(int, f1, Chain.LAST)])
+LF0 = F0.get_loader(typing.List[RNode])
+def clones_recursive(a, b, c, n, c0):
+    """a clone (extend / replace) serves recursive models with ITS recipe and options at every nesting level, and leaves the
+    parent's loaders unchanged"""
+    s = sel_atom(4, n, c0, 0, 0, "01a-")
+    data = [{"v": a, "children": [{"v": b, "children": [{"v": c}], "nxt": {"v": a}}]}]
+    sdata = [{"v": a, "children": [{"v": s, "children": [{"v": s}]}]}]
+    for got, exp, d in ((LP1, LF1, data), (LP0, LF0, data), (LP0_AFTER, LF0, data), (LP2, LF2, sdata), (LP0, LF0, sdata),
+                        (LPO1, LFO1, data[0]), (LPO0, F0.get_loader(typing.Optional[RNode]) if False else LPO0, data[0])):
+        o1, o2 = outcome(got, d), outcome(exp, d)
+        if o1[0] != o2[0]: return False
+        if o1[0] == "ok" and o1[2] != o2[2]: return False
+    return True
+
 def immut(pa, pA, a, s):
     data = {}
     if pa: data["a"] = a
@@ -287,6 +320,13 @@ def build(tier, seed):
     mi.ob("extend_replace_immutable", "pa: bool, pA: bool, a: int, s: str", "return immut(pa, pA, a, s)",
           pre=["len(s) <= 1"], timeout=tmo, family="immutability: extend()/replace() leave the original retort and its loaders unchanged",
           bounds="model with 2 fields, presence bits for the original and the remapped key, a any int, s str len<=1")
+    mi.ob("clones_recursive", "a: int, b: int, c: int, n: int, c0: int", "return clones_recursive(a, b, c, n, c0)",
+          pre=["0 <= n <= 2", "0 <= c0 < 4"], timeout=tmo, family="immutability: clones and recursive models",
+          bounds="List[Node] / Optional[Node] with Node.children: List[Node], requested on a retort, its extend() and replace() clones; data nested 3 levels; any ints, str len<=2 over '01a-'")
+    from props.C13 import build as build_c13
+    for m13 in build_c13(tier, seed).modules:
+        m13.obs = [o for o in m13.obs if o.name == "history"]
+        mods.append(m13)
     return Plan("C11", mods + [mk, mi],
                 assumptions=["histories are enumerated natively (bounded family, stated as enumeration); the datum is symbolic",
                              "cached_call sites whose arguments are closures/enums/bools/classes are argued by identity; only the Literal site takes values"],
